@@ -179,11 +179,23 @@ Proof.
   rewrite E. unfold C02.run_conn. apply Proofs.C02.stays_in_frame, Proofs.C02.scope_forall, Hs.
 Qed.
 
+(* Transport details are invisible. Which connections ship their parameter
+   batches through a shared-memory segment of their own ([i_shm]) and whether
+   the connections of a talk run concurrently or take turns call by call
+   ([TalkRR]: init A, init B, pointer A, pointer B, ...) change NOTHING in
+   what the model assigns to the run: the probes, and every connection's view,
+   which is what its own calls get alone, inline, on a fresh pipe server (each
+   connection has its own reader, writer and segment cache). spec_ok judges the
+   implementation's views of such runs against that same alone run. *)
+Theorem transport_details_invisible : forall i shm ops',
+  map norm_op ops' = map norm_op (i_ops i) -> model (with_transport i shm ops') = model i.
+Proof. exact transport_invisible. Qed.
+
 (* The timed run that the harness forces from outside is a schedule of the
    machine, so everything above applies to it. *)
 Theorem timed_run_is_a_schedule : forall i,
-  exists sched, t_s (fst (trun i (tinit i) (i_ops i))) = run (cfg_of i) (init (cfg_of i)) sched.
-Proof. intros i. exact (timed_run_is_schedule i (i_ops i) (tinit i)). Qed.
+  exists sched, t_s (fst (trun i (tinit i) (ops_of i))) = run (cfg_of i) (init (cfg_of i)) sched.
+Proof. intros i. exact (timed_run_is_schedule i (ops_of i) (tinit i)). Qed.
 
 (* The property in the decidable form evaluated on the implementation's
    observables: for EVERY timed schedule of open / talk / close / wait the
@@ -210,8 +222,8 @@ Qed.
    connection far past the timeout, stops one period after the close, and
    refuses the next dial *)
 Example premises_satisfiable :
-  let i := {| i_unix := true; i_idle := 300; i_gate := false; i_hook := []; i_conns := [[]; []];
-              i_ops := [Open 0; Wait 900; Close 0; Wait 100; Wait 500; Open 1]%nat |} in
+  let i := {| i_unix := true; i_idle := 300; i_gate := false; i_hook := []; i_shm := []; i_conns := [[]; []];
+              i_ops := map Plain [Open 0; Wait 900; Close 0; Wait 100; Wait 500; Open 1]%nat |} in
   map p_ret (o_probes (model i)) = [false; false; false; false; true; true]
   /\ map p_ok (o_probes (model i)) = [true; true; true; true; true; false]
   /\ closed (run code_cfg (init code_cfg) [AcceptRet 1; Count 1; Done 1; TimerFire 1]%nat) = false
@@ -222,8 +234,8 @@ Proof. vm_compute. auto. Qed.
    is held, C = 2 comes and goes, and three idle periods later a dial still
    succeeds and Run has not returned *)
 Example hook_premises_satisfiable :
-  let i := {| i_unix := false; i_idle := 300; i_gate := false; i_hook := [true]; i_conns := [[]; []; []; []];
-              i_ops := [Open 0; Open 1; Open 2; Close 2; Wait 900; Open 3]%nat |} in
+  let i := {| i_unix := false; i_idle := 300; i_gate := false; i_hook := [true]; i_shm := []; i_conns := [[]; []; []; []];
+              i_ops := map Plain [Open 0; Open 1; Open 2; Close 2; Wait 900; Open 3]%nat |} in
   map p_refused (o_probes (model i)) = [true; false; false; false; false; false]
   /\ map p_ok (o_probes (model i)) = [true; true; true; true; true; true]
   /\ map p_ret (o_probes (model i)) = [false; false; false; false; false; false].
